@@ -29,7 +29,10 @@ Record parse_case := {
   (* ParsePackageIndex on the bodies that can reach it *)
   p_texts : list (list N * option (list string));
   o_should_check : bool;
-  o_result : option (list string * list N)      (* accepted: packages, description *)
+  o_result : option (list string * list N);     (* accepted: packages, description *)
+  (* accepted: the Signature field of the returned index, None = nil; the body of an
+     entry of the first member is given by the fingerprint the archive view uses *)
+  o_signature : option (list N)
 }.
 
 Definition verify_of (tbl : list (string * halg * list N)) (key : string) (a : halg) (_ : unit) (sig : list N) : bool :=
@@ -55,7 +58,8 @@ Definition check_parse (c : parse_case) : list string :=
   match parse_repository_index unit unit raw hash verify pt chk (p_keys c) (p_members c), o_result c with
   | POk i, Some (pk, d) =>
       tag_if (negb (list_eqb String.eqb (i_pkgs i) pk)) "mismatch:packages" ++
-      tag_if (negb (list_eqb N.eqb (i_desc i) d)) "mismatch:description"
+      tag_if (negb (list_eqb N.eqb (i_desc i) d)) "mismatch:description" ++
+      tag_if (negb (option_eqb (list_eqb N.eqb) (i_sig i) (o_signature c))) "mismatch:signature-field"
   | PErr, None => []
   | POk _, None => ["mismatch:model-accepts-impl-rejects"]
   | PErr, Some _ => ["mismatch:model-rejects-impl-accepts"]
@@ -93,3 +97,43 @@ Definition check_repos (c : repos_case) : list string :=
      the outcome does not depend on that (cache_fixed_sound), so the model caches everything *)
   let model := run_history signer loc (rp_arch c) (fun _ => true) vctx vctx_eqb (ctx_fixed loc (rp_arch c)) [] (rp_calls c) in
   history_tags signer loc (rp_arch c) (rp_calls c) ++ outcome_tags model (rp_calls c).
+
+(* ---- vctx stage: verificationContext on pairs of requests ------------------------
+   Two requests for the same index (same URL and architecture), each with its own
+   options and key map (name, key bytes). The harness hands over, for each request,
+   the bytes IT computes as the hash input together with their SHA-256 (the model
+   looks its own hash input up in that table: a different input finds nothing), and
+   the string the real function returned. Property-level demand, independent of the
+   model: equal context strings only for requests that agree on whether verification
+   applies and, when it does, on the set of (name, key bytes) pairs. *)
+From Apko Require Export Model.IndexVctx.
+Record vctx_req := {
+  vq_ignore : bool; vq_listed : list string; vq_keys : list (string * string);
+  vq_hash : list (string * string);           (* hash input -> digest bytes *)
+  o_ctx : string }.
+Record vctx_case := { vc_url : string; vc_arch : string; vc_a : vctx_req; vc_b : vctx_req }.
+
+Definition hash_of (tbl : list (string * string)) (x : string) : string :=
+  match assoc_str x tbl with Some d => d | None => "" end.
+
+Definition pair_mem (p : string * string) (l : list (string * string)) : bool :=
+  existsb (fun q => String.eqb (fst p) (fst q) && String.eqb (snd p) (snd q)) l.
+Definition same_pairs (a b : list (string * string)) : bool :=
+  forallb (fun p => pair_mem p b) a && forallb (fun p => pair_mem p a) b.
+
+Definition check_vctx (c : vctx_case) : list string :=
+  let req q := check_required_b (vq_ignore q) (vq_listed q) (vc_url c) (vc_arch c) in
+  let chk q := should_check (vq_ignore q) (vq_listed q) (vc_url c) (vc_arch c) in
+  let model q := verification_context (hash_of (vq_hash q)) (chk q) (vq_keys q) in
+  tag_if (negb (String.eqb (model (vc_a c)) (o_ctx (vc_a c)))) "mismatch:verification-context" ++
+  tag_if (negb (String.eqb (model (vc_b c)) (o_ctx (vc_b c)))) "mismatch:verification-context" ++
+  (if String.eqb (o_ctx (vc_a c)) (o_ctx (vc_b c)) then
+     tag_if (negb (Bool.eqb (req (vc_a c)) (req (vc_b c)))) "viol:verification-context-confuses-checked-and-unchecked" ++
+     tag_if (req (vc_a c) && req (vc_b c) && negb (same_pairs (vq_keys (vc_a c)) (vq_keys (vc_b c))))
+            "viol:verification-context-confuses-key-sets"
+   else []).
+
+(* ---- sweep stage: mutants of signed archives, judged by the mutant oracle --------- *)
+From Apko Require Export Spec.IndexBytesSpec.
+Definition check_sweep (bases : list (list N)) (signed : list (list piece * list string)) (c : sweep_case) : list string :=
+  mutant_tags (map (fun s => (render bases (fst s), snd s)) signed) (render bases (sw_suffix c)) (sw_ending c) (sw_verdict c).
